@@ -115,6 +115,27 @@ def fam_job(fam, mask, H, W, ys=None, xs=None, **kw):
     elif fam == "nan_inf_listed":         # values=(nan, inf): -inf still kept
         lst, kind = [NAN, PINF], "tuple"
         cell = lambda r, c, k: alt(r, c, NINF, 1) if k else alt(r, c, NAN, PINF)
+    # ---- equality is by VALUE, not by bit pattern (float64): -0.0 == 0.0, every NaN is NaN
+    elif fam == "negzero_cells":          # values=(0.0,), the excluded cells hold -0.0; NaN is kept
+        lst, kind, kw = [0], "tuple", dict(kw, neg_zero_cells=True)
+        cell = lambda r, c, k: alt(r, c, 1, NAN) if k else 0
+    elif fam == "negzero_listed":         # values=(-0.0,), the excluded cells hold +0.0
+        lst, kind, kw = [0], "tuple", dict(kw, neg_zero_listed=True)
+        cell = lambda r, c, k: alt(r, c, 2, 1) if k else 0
+    elif fam == "odd_nan_default":        # default values=(nan,): NaN cells with the sign bit set (inf - inf, -nan)
+        kw = dict(kw, nan_kind="neg")
+        cell = lambda r, c, k: alt(r, c, 1, 0) if k else NAN
+    elif fam == "odd_nan_0_nan":          # values=(0, nan): NaNs with sign / payload, zeros of both signs
+        lst, kind, kw = [0, NAN], "tuple", dict(kw, nan_kind="mixed", neg_zero_cells=True)
+        cell = lambda r, c, k: alt(r, c, 1, 2) if k else alt(r, c, NAN, 0)
+    # ---- index coordinates with REPEATED labels (monotonic, not strictly): the window is positional
+    elif fam == "int_0_dup_coords":       # y labels in pairs (0,0,1,1,..), x labels constant
+        dtype, lst = "int64", [0]
+        cell = lambda r, c, k: 1 if k else 0
+        ys, xs = ys or [r // 2 for r in range(H)], xs or [7] * W
+    elif fam == "nan_dup_coords":         # default values; y descending with a repeated label, x in pairs
+        cell = lambda r, c, k: alt(r, c, 1, 0) if k else NAN
+        ys, xs = ys or [-((r + 1) // 2) for r in range(H)], xs or [3 * (c // 2) for c in range(W)]
     # ---- integer zones with NEGATIVE labels (a -1 "no zone" border, -9999 nodata, the dtype minimum)
     elif fam == "crop_negative_labels":   # ids [1, 2]; other cells -1 / -9999 / 0
         mode, dtype, lst = "crop", "int64", [1, 2]
@@ -147,7 +168,8 @@ def fam_job(fam, mask, H, W, ys=None, xs=None, **kw):
 
 FAMILIES = ["int_0", "float_default_nan", "float_nan_0", "float_0", "crop_1_2", "crop_2", "int_0_2"]
 # id lists with duplicates / gaps / absent / negative / float ids, and 64-bit neighbours of an excluded value
-FAMILIES2 = ["inf_kept_default", "inf_kept_nan_tuple", "inf_kept_0_nan", "inf_listed", "nan_inf_listed",
+FAMILIES2 = ["negzero_cells", "negzero_listed", "odd_nan_default", "odd_nan_0_nan", "int_0_dup_coords",
+             "nan_dup_coords", "inf_kept_default", "inf_kept_nan_tuple", "inf_kept_0_nan", "inf_listed", "nan_inf_listed",
              "crop_negative_labels", "crop_negative_min", "crop_negative_listed", "crop_dup_gap", "crop_unsorted_dup", "crop_7_5_5", "crop_absent_negative", "crop_float_ids",
              "trim_i64_neighbours", "trim_i64_negative", "crop_i64_neighbours"]
 
@@ -193,6 +215,9 @@ def random_jobs(rng, n):
             ys.sort(reverse=True); xs.sort()
         elif o < 0.7:
             ys.sort(); xs.sort()
+        if rng.random() < 0.25:                    # monotonic labels with repeats (rounded / constant coordinates)
+            ys = sorted(rng.choice(range(-3, 4)) for _ in range(H))
+            xs = sorted((rng.choice(range(-3, 4)) for _ in range(W)), reverse=rng.random() < 0.5)
         j = fam_job(fam, mask, H, W, ys=ys, xs=xs)
         j["layout"] = rng.choice(["C", "F", "view", "T", "rev"])
         j["dims"] = rng.choice([["y", "x"], ["lat", "lon"], ["row", "col"]])
@@ -339,14 +364,14 @@ def replay_jobs(rng, thorough):
         for mask in all_masks(H, W):
             for fam in FAMILIES:
                 # quick: 3x4 / 4x3 fully in the two main encodings, a seeded 1/8 in the others
-                if (H, W) in mid and not thorough and fam not in main and rng.random() >= 1 / 8:
+                if (H, W) in mid and not thorough and rng.random() >= (1 if fam == "int_0" else 1 / 2 if fam in main else 1 / 8):
                     continue
                 yield mark_proper(fam_job(fam, mask, H, W), mask)
             for fam in FAMILIES2:
                 # the special families: every mask of the grids with <= 6 cells; in the quick tier a seeded share of
-                # the larger ones (3x3: 1/4, 2x4 / 4x2: 1/8, 3x4 / 4x3: 1/32; thorough: all, resp. 1/2 of 3x4 / 4x3)
+                # the larger ones (3x3: 1/6, 2x4 / 4x2: 1/16, 3x4 / 4x3: 1/64; thorough: all, resp. 1/2 of 3x4 / 4x3)
                 n = H * W
-                share = 1 if n <= 6 else ((1 / 2 if n == 12 else 1) if thorough else {9: 1 / 4, 8: 1 / 8, 12: 1 / 32}[n])
+                share = 1 if n <= 6 else ((1 / 2 if n == 12 else 1) if thorough else {9: 1 / 6, 8: 1 / 16, 12: 1 / 64}[n])
                 if share < 1 and rng.random() >= share:
                     continue
                 yield mark_proper(fam_job(fam, mask, H, W), mask)
